@@ -88,29 +88,32 @@ func (t *Handler) Handle(cx *layer4.Connection, next layer4.Handler) error {
 	// (it also needs a pointer to the pipe, so it can
 	// close the pipe when the connection closes,
 	// otherwise we'll leak the goroutine, yikes!)
-	nextc := *cx
-	nextc.Conn = nextConn{
+	//
+	// Both connections are created with Wrap, not by copying
+	// *cx: a copy would carry cx's buffered bytes, which are
+	// also delivered when reading through cx, so that they
+	// would reach both the next handler and the branch twice.
+	nextc := cx.Wrap(nextConn{
 		Conn:   cx,
 		Reader: io.TeeReader(cx, pw),
 		pipe:   pw,
-	}
+	})
 
 	// this is the conn we pass to the branch
-	branchc := *cx
-	branchc.Conn = teeConn{
+	branchc := cx.Wrap(teeConn{
 		Conn:   cx,
 		Reader: pr,
-	}
+	})
 
 	// run the branch concurrently
 	go func() {
-		err := t.compiledChain.Handle(&branchc)
+		err := t.compiledChain.Handle(branchc)
 		if err != nil {
 			t.logger.Error("handling connection in branch", zap.String("remote", cx.RemoteAddr().String()), zap.Error(err))
 		}
 	}()
 
-	return next.Handle(&nextc)
+	return next.Handle(nextc)
 }
 
 // UnmarshalCaddyfile sets up the Handler from Caddyfile tokens. Syntax:
